@@ -62,7 +62,8 @@ func c03configs(thorough bool) []map[string]int {
 	def := map[string]int{"window": 16 << 20, "writeq": 16 << 20, "rbuf": 32 << 10, "wbuf": 32 << 10, "compress": 0}
 	short := map[string]int{"window": 8, "writeq": 16 << 20, "rbuf": 16, "wbuf": 32 << 10, "compress": 0, "maxread": 3}
 	if !thorough {
-		return []map[string]int{tiny, def, short}
+		tinyc := map[string]int{"window": 3, "writeq": 16, "rbuf": 16, "wbuf": 16, "compress": 1}
+		return []map[string]int{tiny, def, short, tinyc}
 	}
 	out := []map[string]int{tiny, def, short}
 	for _, w := range []int{1, 8} {
@@ -201,6 +202,143 @@ func init() {
 			}
 			x.Outcome = fmt.Sprintf("c2s=%d/%d s2c=%d/%d", len(c2s[0].got)+len(c2s[1].got), len(c2s[0].sent)+len(c2s[1].sent), len(s2c[0].got)+len(s2c[1].got), len(s2c[0].sent)+len(s2c[1].sent))
 			w.shutdown()
+		},
+	})
+
+	// S3: three channels over TWO connections of one real client (connection pool), both directions.
+	vexp.Register(&vexp.Scenario{
+		Name: "c03.S3.three-channels-two-connections", Prop: "C03",
+		Bounds: func(thorough bool) vexp.Bounds {
+			if thorough {
+				return vexp.Bounds{P: 2, F: 1, E: 0}
+			}
+			return vexp.Bounds{P: 1, F: 1, E: 0}
+		},
+		Configs: func(thorough bool) []map[string]int {
+			out := []map[string]int{
+				{"window": 3, "writeq": 16, "rbuf": 16, "wbuf": 16, "compress": 0, "maxconns": 2, "target": 1},
+				{"window": 16 << 20, "writeq": 16 << 20, "rbuf": 32 << 10, "wbuf": 32 << 10, "compress": 1, "maxconns": 2, "target": 1},
+			}
+			if thorough {
+				out = append(out, map[string]int{"window": 8, "writeq": 16, "rbuf": 16, "wbuf": 16, "compress": 1, "maxconns": 2, "target": 2},
+					map[string]int{"window": 1, "writeq": 16 << 20, "rbuf": 16, "wbuf": 16, "compress": 0, "maxconns": 3, "target": 1})
+			}
+			return out
+		},
+		MaxSteps: 100000,
+		Doc:      "real mpx client with a scheduler-controlled connector (MaxConns 2..3, channel target 1..2): three callers open a channel each, the pool spreads them over two (or three) connections; per channel 2 messages + SendAndClose(payload), the server handler echoes and drains; every direction of every channel must be its own prefix/whole sequence (no leakage between channels or connections)",
+		Body: func(x *vexp.Ctx) {
+			W := x.P("window", 3)
+			sz := c03sizes(W)
+			for i := range sz {
+				if sz[i] > 64 {
+					sz[i] = 16 + i*9
+				}
+			}
+			const nch = 3
+			c2s := make([]*c03dir, nch)
+			s2c := make([]*c03dir, nch)
+			for i := range c2s {
+				c2s[i] = &c03dir{name: fmt.Sprintf("channel %d client->server", i)}
+				s2c[i] = &c03dir{name: fmt.Sprintf("channel %d server->client", i)}
+			}
+			hDone := 0
+			c, vc := newVClient(x, ClientMode_OnDemand, nil, false)
+			vc.handler = HandleFunc(func(ctx Context, ch Channel) status.Status {
+				rctx := async.NoContext()
+				idx := -1
+				n := 0
+				for {
+					msg, st := ch.Receive(rctx)
+					if !st.OK() {
+						if idx >= 0 && st.Code == status.CodeEnd {
+							c2s[idx].drained = true
+						}
+						break
+					}
+					if idx < 0 {
+						idx = vPayloadChan(msg)
+						if idx < 0 || idx >= nch {
+							idx = 0
+						}
+					}
+					c2s[idx].got = append(c2s[idx].got, append([]byte{}, msg...))
+					rp := vPayload(9, idx, n, sz[(n+2)%len(sz)])
+					s2c[idx].sent = append(s2c[idx].sent, rp)
+					if st := ch.Send(rctx, rp); !st.OK() {
+						s2c[idx].sent = s2c[idx].sent[:len(s2c[idx].sent)-1]
+						s2c[idx].sendFail = st.String()
+					}
+					n++
+				}
+				hDone++
+				return status.OK
+			})
+			ctx := async.NoContext()
+			cDone := 0
+			for i := 0; i < nch; i++ {
+				i := i
+				vsched.GoNamed(fmt.Sprintf("client.ch%d", i), func() {
+					defer func() { cDone++ }()
+					ch, st := c.Channel(ctx)
+					if !st.OK() {
+						c2s[i].sendFail = "channel: " + st.String()
+						return
+					}
+					rDone := false
+					vsched.GoNamed(fmt.Sprintf("client.ch%d.reader", i), func() {
+						for {
+							msg, st := ch.Receive(ctx)
+							if !st.OK() {
+								if st.Code == status.CodeEnd {
+									s2c[i].drained = true
+								}
+								break
+							}
+							s2c[i].got = append(s2c[i].got, append([]byte{}, msg...))
+						}
+						rDone = true
+					})
+					for k := 0; k < 3; k++ {
+						p := vPayload(0, i, k, sz[(k+i)%len(sz)])
+						c2s[i].sent = append(c2s[i].sent, p)
+						var st status.Status
+						if k < 2 {
+							st = ch.Send(ctx, p)
+						} else {
+							st = ch.SendAndClose(ctx, p)
+						}
+						if !st.OK() {
+							c2s[i].sent = c2s[i].sent[:len(c2s[i].sent)-1]
+							c2s[i].sendFail = st.String()
+							break
+						}
+					}
+					vsched.Join("client reader done", func() bool { return rDone })
+					ch.Free()
+				})
+			}
+			vsched.Join("clients and handlers done", func() bool { return cDone == nch && hDone == nch })
+			nsent, ngot := 0, 0
+			for i := 0; i < nch; i++ {
+				c2s[i].check(x)
+				s2c[i].drained = false
+				s2c[i].check(x)
+				if c2s[i].sendFail != "" {
+					x.Fail("Send fails on a healthy connection: "+errSig(c2s[i].sendFail), "%s: %s", c2s[i].name, c2s[i].sendFail)
+				}
+				if !c2s[i].drained {
+					x.Fail("server receiver did not observe the end status", "%s", c2s[i].name)
+				}
+				nsent += len(c2s[i].sent)
+				ngot += len(c2s[i].got)
+			}
+			for _, e := range vc.log.bad() {
+				x.Fail("error logged: "+errSig(e), "%s", e)
+			}
+			x.Outcome = fmt.Sprintf("conns=%d c2s=%d/%d", vc.dials, ngot, nsent)
+			c.Close()
+			vsched.WaitIdle("quiesce")
 		},
 	})
 
